@@ -237,6 +237,29 @@ def input_loops(fn, fctx):
     return out
 
 
+def _same_yield_count_on_every_path(fn, loop):
+    from ..cfg import CFG, loop_body_paths, node_contains, normal
+    cache = fn.__dict__.setdefault('_yc_cache', {})      # lives and dies with the AST of this function
+    key_ = id(loop)
+    if key_ in cache:
+        return cache[key_]
+    _YC_CACHE = cache
+    res = False
+    try:
+        g = cache.get('cfg') or CFG(fn)
+        cache['cfg'] = g
+        head = [nd for nd in g.nodes if nd.kind in ('for', 'while') and nd.ast is loop and not nd.tag]
+        if head:
+            ys = [y for y in A.walk_stmts(loop.body) if isinstance(y, (ast.Yield, ast.YieldFrom))]
+            paths = loop_body_paths(g, head[0], edge_ok=normal)
+            counts = {sum(1 for nd in p for y in ys if node_contains(nd, y)) for p in paths}
+            res = bool(paths) and len(counts) == 1 and counts != {0}
+    except Exception:
+        res = False
+    _YC_CACHE[key_] = res
+    return res
+
+
 def iteration_class(ctx, cls):
     """structural flags of cls.__iter__ (resolved):
     conditional  a yield inside the per-element loop is control dependent on a test
@@ -279,7 +302,10 @@ def iteration_class(ctx, cls):
         # statements between the yield and its innermost loop
         upto = chain[:chain.index(inner)]
         if any(isinstance(a, ast.If) for a in upto):
-            flags.add('conditional')
+            # control dependent on a test - unless every way through one iteration of the loop yields the same number of
+            # times (`if with_key: yield k, v  else: yield v`)
+            if not _same_yield_count_on_every_path(fn, inner):
+                flags.add('conditional')
         if any(isinstance(a, ast.Try) and a.handlers for a in upto):
             flags.add('catching')
         if len(encl_loops) >= 2:
